@@ -334,3 +334,17 @@ Fixpoint run (c : Cfg) (s : St) (ops : list Op) : St * list Ev :=
   | [] => (s, [])
   | o :: rest => let '(s1, e1) := step c s o in let '(s2, e2) := run c s1 rest in (s2, e1 ++ e2)
   end.
+
+(* ---------- predicates used by the theorems and as known-finding triggers ---------- *)
+Definition byz_frozen_m (s : St) (a : Z) : bool :=
+  match susp s !! a with Some l => lvh_frozen l && (l_status l =? BYZ) | None => false end.
+(* trigger C19.missed_scan_overwrites_byzantine: BeginBlock's missed-votes scan reaches [a] *)
+Definition missed_scan_hits (c : Cfg) (s : St) (o : Op) (a : Z) : bool :=
+  match o with
+  | OBegin h _ low =>
+      (blockVotesDiff c <? h) && inb a low &&
+      match vstat s !! a with Some v => v_active v && (v_height v + blockVotesDiff c <=? h) | None => false end
+  | _ => false
+  end.
+(* trigger C19.height_le_votes_diff *)
+Definition height_le_votes_diff (c : Cfg) (h : Z) : bool := h <=? blockVotesDiff c.
